@@ -248,6 +248,10 @@ brk('C20', 'R20.3', 'pyiga/compile.py', 'pyiga.compile._compile_cython_module_no
 twin('C20', 'pyiga/compile.py', 'pyiga.compile._compile_cython_module_nocache', r"(\n(\s*))os\.replace\(built, os\.path\.join\(MODDIR, os\.path\.basename\(built\)\)\)",
      r"\1target = os.path.join(MODDIR, os.path.basename(built))\1os.replace(built, target)", 'target through a local')
 
+brk('C04', 'R04.7', 'pyiga/hierarchical.py', 'pyiga.hierarchical.HSpace.refine', r"(\n(\s*))marked = \{lv: set\(cells\) for \(lv, cells\) in marked\.items\(\)\}\n\s*if self\.disparity < np\.inf:\n",
+    r"\1if self.disparity < np.inf:\1    marked = {lv: set(cells) for (lv, cells) in marked.items()}\n", 'marks copied only for finite disparity (original defect)')
+twin('C04', 'pyiga/hierarchical.py', 'pyiga.hierarchical.HSpace.refine', r"marked = \{lv: set\(cells\) for \(lv, cells\) in marked\.items\(\)\}", 'marked = {lv: set(marked[lv]) for lv in marked}', 'copy written over the keys')
+
 
 def recipes_for(prop):
     return [r for r in R if r['prop'] == prop]
